@@ -221,6 +221,7 @@ pub fn apply14(store: &mut AnnotationStore, op: &Sx) -> i64 {
 
 impl Ctx {
     pub fn new() -> Self {
+        crate::storegen::BARE_KEYS.store(true, std::sync::atomic::Ordering::Relaxed);
         Ctx {}
     }
     pub fn exec(&self, req: &Sx) -> (Sx, Vec<Sx>, bool) {
